@@ -40,6 +40,7 @@ func CallConcurrently(ctx context.Context, fns ...CallConcurrentlyFunc) error {
 	}
 
 	var waitCh <-chan struct{}
+	var started int
 	bcast.HoldLock(func(broadcast func(), getWaitCh func() <-chan struct{}) {
 		waitCh = getWaitCh()
 		for _, fn := range fns {
@@ -47,10 +48,13 @@ func CallConcurrently(ctx context.Context, fns ...CallConcurrentlyFunc) error {
 				continue
 			}
 			running++
+			started++
 			go callFunc(fn)
 		}
 	})
-	if running == 0 {
+	// NOTE: running is guarded by bcast and may already have been decremented
+	// by the callFunc goroutines: check the number of started routines instead.
+	if started == 0 {
 		return nil
 	}
 
